@@ -4,10 +4,10 @@
 //
 //	phase 0  the seed grammars unchanged: parsers/{json,simple,test,tm}/*.tm, a hand cut-down of js.tm,
 //	         compiler/testdata/*.tmerr with the «» markers stripped, 10 hand-written feature grammars;
-//	phase 1  every 1-token deviation of every seed: deletion, duplication, swap with the next token,
+//	phase 1  every byte string of length <= 3 over 18 bytes inserted in 5 minimal contexts;
+//	phase 2  every 1-token deviation of every seed: deletion, duplication, swap with the next token,
 //	         replacement by each of the replacement tokens below (token boundaries come from the real
 //	         tm lexer; comments count as white space);
-//	phase 2  every byte string of length <= 3 over 18 bytes inserted in 5 minimal contexts;
 //	phase 3  (thorough) every combination of two 1-token deviations at different positions of every
 //	         seed shorter than 60 tokens.
 //
@@ -148,10 +148,10 @@ var replacements = []string{
 	"%empty", "error", "lexer", "parser", "-1",
 }
 
-// Bytes for phase 2.
-var phase2Bytes = []byte{'a', '1', ' ', '\n', ':', ';', '/', '\'', '"', '{', '}', '(', '[', '%', '<', '\\', 0xc3, 0x00}
+// Bytes for the byte-string phase.
+var byteAlphabet = []byte{'a', '1', ' ', '\n', ':', ';', '/', '\'', '"', '{', '}', '(', '[', '%', '<', '\\', 0xc3, 0x00}
 
-var phase2Contexts = []struct{ name, before, after string }{
+var byteContexts = []struct{ name, before, after string }{
 	{"prepend", "", "language l(go);\n:: lexer\na: /a/\n"},
 	{"header", "language l(go);\n", ""},
 	{"lexer", "language l(go);\n:: lexer\n", ""},
@@ -241,16 +241,16 @@ type caseRef struct {
 }
 
 func (c *caseRef) Text() string {
-	if c.phase == 2 {
-		x := phase2Contexts[c.ctx]
+	if c.phase == 1 {
+		x := byteContexts[c.ctx]
 		return x.before + string(c.bytes) + x.after
 	}
 	return c.s.apply(c.es)
 }
 
 func (c *caseRef) Desc() string {
-	if c.phase == 2 {
-		return fmt.Sprintf("bytes %s %q", phase2Contexts[c.ctx].name, c.bytes)
+	if c.phase == 1 {
+		return fmt.Sprintf("bytes %s %q", byteContexts[c.ctx].name, c.bytes)
 	}
 	var parts []string
 	for _, e := range c.es {
@@ -262,8 +262,8 @@ func (c *caseRef) Desc() string {
 const twoDevMaxTokens = 60
 
 // quickBigSeed: seeds above this many tokens get only deletions/duplications/swaps plus a reduced
-// replacement set in the quick tier (all replacements in thorough). Only parsers/tm/textmapper.tm is that big.
-const quickBigSeed = 1000
+// replacement set in the quick tier (all replacements in thorough): the js cut-down, parsers/test and parsers/tm.
+const quickBigSeed = 600
 
 var quickBigReps = map[string]bool{";": true, "(": true, "a": true}
 
@@ -282,7 +282,27 @@ func enumerate(seeds []*seed, quick bool, visit func(idx int, c *caseRef) bool) 
 			return
 		}
 	}
-	// phase 1
+	// phase 1: byte strings
+	for ci := range byteContexts {
+		for n := 0; n <= 3; n++ {
+			buf := make([]byte, n)
+			total := 1
+			for i := 0; i < n; i++ {
+				total *= len(byteAlphabet)
+			}
+			for code := 0; code < total; code++ {
+				x := code
+				for i := n - 1; i >= 0; i-- {
+					buf[i] = byteAlphabet[x%len(byteAlphabet)]
+					x /= len(byteAlphabet)
+				}
+				if !emit(&caseRef{phase: 1, ctx: ci, bytes: buf}) {
+					return
+				}
+			}
+		}
+	}
+	// phase 2: one deviation
 	for _, s := range seeds {
 		big := quick && len(s.toks) > quickBigSeed
 		es := make([]edit, 1)
@@ -291,29 +311,9 @@ func enumerate(seeds []*seed, quick bool, visit func(idx int, c *caseRef) bool) 
 				return true
 			}
 			es[0] = e
-			return emit(&caseRef{phase: 1, s: s, es: es})
+			return emit(&caseRef{phase: 2, s: s, es: es})
 		}) {
 			return
-		}
-	}
-	// phase 2
-	for ci := range phase2Contexts {
-		for n := 0; n <= 3; n++ {
-			buf := make([]byte, n)
-			total := 1
-			for i := 0; i < n; i++ {
-				total *= len(phase2Bytes)
-			}
-			for code := 0; code < total; code++ {
-				x := code
-				for i := n - 1; i >= 0; i-- {
-					buf[i] = phase2Bytes[x%len(phase2Bytes)]
-					x /= len(phase2Bytes)
-				}
-				if !emit(&caseRef{phase: 2, ctx: ci, bytes: buf}) {
-					return
-				}
-			}
 		}
 	}
 	if quick {
